@@ -220,7 +220,7 @@ def replay_localeinfo(prop, result, fresh, wd, info):
     # unknown language / unknown country / empty parts, well-formed names and codes
     inputs = ['@repeat:70:_GB', 'en_@repeat:70:', 'en_@repeat:64:', 'en_@repeat:63:', 'en_@repeat:65:', '@repeat:65:_GB', '@repeat:63:_GB', '@repeat:64:_GB', 'en.x_GB', 'a.b_c.d', 'zz_GB', 'en_ZZ', '_GB', 'en_', '_', 'en',
               'en_GB', 'en_GB.UTF-8', 'English_United States.1252', 'hu_HU', 'Chinese_China', 'zz_United Kingdom', 'en_GB_x', '.en_GB',
-              'en_G', 'en_', 'en_Unit', 'en_United', 'English_U', 'e_GB', 'Eng_GB', 'en_GBR', 'en_United Kingdom of', 'hu_H.UTF-8', 'en_g']
+              'English_GB', 'Portuguese_Brazil.1252', 'Hungarian_HU', 'e_GB.UTF-8', 'en_G', 'en_', 'en_Unit', 'en_United', 'English_U', 'e_GB', 'Eng_GB', 'en_GBR', 'en_United Kingdom of', 'hu_H.UTF-8', 'en_g']
     env = dict(os.environ, ASAN_OPTIONS='detect_leaks=0:abort_on_error=0')
     for a in inputs:
         arg = a
